@@ -1654,3 +1654,10 @@ M("c01_bump_down_wrapping_sub", ["C01", "C07"], ["C01.R17", "C07.R7"], [
     ("src/lib.rs", """    let subtracted = addr.get().saturating_sub(size);""", """    let subtracted = addr.get().wrapping_sub(size);""")])
 M("c10_grow_size_doubles_capacity", ["C10", "C12"], ["C10.R8", "C12.R3"], [
     ("src/raw_bump.rs", """        let Some(size) = self.size().get().checked_mul(2) else {""", """        let Some(size) = self.capacity().checked_mul(2) else {""")])
+M("c09_display_via_formatter_pad", ["C09"], [], [
+    ("src/bump_string.rs", """        Display::fmt(self.as_str(), f)""", """        f.pad(self.as_str())""")], negative=True)
+M("c19_pool_lock_recovers_with_match", ["C19", "C07"], [], [
+    ("src/bump_pool.rs", """        self.bumps.lock().unwrap_or_else(PoisonError::into_inner)""", """        match self.bumps.lock() {
+            Ok(guard) => guard,
+            Err(poisoned) => poisoned.into_inner(),
+        }""")], negative=True)
